@@ -43,6 +43,10 @@ def source_of(case):
     if k == 'tour':
         from . import tour
         return tour.TOUR[case['idx']], dict(tour.SCRIPT), {}
+    if k == 'shape':
+        from . import shapes
+        tag, text = shapes.programs()[case['idx']]
+        return text, gen_script(case['idx']), {'shape_tag': tag}
     if k == 'text':
         return case['text'], case.get('scriptv') or gen_script(case.get('seed', 0)), {}
     raise ValueError(k)
